@@ -6,6 +6,7 @@ package hclwrite
 import (
 	"github.com/hashicorp/hcl/v2/hclsyntax"
 	"github.com/zclconf/go-cty/cty"
+	"strings"
 )
 
 type Block struct {
@@ -150,24 +151,34 @@ func (bl *blockLabels) Current() []string {
 
 		case *quoted:
 			tokens := labelObj.tokens
-			if len(tokens) == 3 &&
+			if len(tokens) >= 2 &&
 				tokens[0].Type == hclsyntax.TokenOQuote &&
-				tokens[1].Type == hclsyntax.TokenQuotedLit &&
-				tokens[2].Type == hclsyntax.TokenCQuote {
-				// Note that TokenQuotedLit may contain escape sequences.
-				labelString, diags := hclsyntax.ParseStringLiteralToken(tokens[1].asHCLSyntax())
+				tokens[len(tokens)-1].Type == hclsyntax.TokenCQuote {
+				// The scanner splits a quoted literal into several
+				// TokenQuotedLit tokens around "$" and "%" characters, and
+				// each of them may contain escape sequences. An open quote
+				// followed immediately by a closing quote is a valid but
+				// unusual blank string label.
+				var labelString strings.Builder
+				valid := true
+				for _, token := range tokens[1 : len(tokens)-1] {
+					if token.Type != hclsyntax.TokenQuotedLit {
+						valid = false
+						break
+					}
+					part, diags := hclsyntax.ParseStringLiteralToken(token.asHCLSyntax())
+					if diags.HasErrors() {
+						valid = false
+						break
+					}
+					labelString.WriteString(part)
+				}
 
 				// If parsing the string literal returns error diagnostics
 				// then we can just assume the label doesn't match, because it's invalid in some way.
-				if !diags.HasErrors() {
-					labelNames = append(labelNames, labelString)
+				if valid {
+					labelNames = append(labelNames, labelString.String())
 				}
-			} else if len(tokens) == 2 &&
-				tokens[0].Type == hclsyntax.TokenOQuote &&
-				tokens[1].Type == hclsyntax.TokenCQuote {
-				// An open quote followed immediately by a closing quote is a
-				// valid but unusual blank string label.
-				labelNames = append(labelNames, "")
 			}
 
 		default:
